@@ -75,7 +75,7 @@ class C13(E1Check):
         return {"N": 4, "D": 3} if self.tier == "quick" else {"N": 5, "D": 4, "max_states": 20000}
 
     def budget(self):
-        return 900 if self.tier == "quick" else 2400
+        return 900 if self.tier == "quick" else 1200
 
     def worker_init(self):
         super().worker_init()
